@@ -577,8 +577,11 @@ class Bus(ContainerBase, StoreClientMixin): # not a ContainerOperand
 
         if self._store is None: # there has to be a Store defined if we are partially loaded
             raise RuntimeError('no store defined')
+        # work on copies of the bookkeeping and commit them only after all reads succeeded, so that a failing store read leaves this Bus unchanged
+        loaded = self._loaded.copy()
         if max_persist_active:
-            loaded_count = self._loaded.sum()
+            loaded_count = loaded.sum()
+            last_accessed = self._last_accessed.copy()
 
         array = self._series.values.copy() # not a deepcopy
         targets = self._series.iloc[key] # key is iloc key
@@ -600,26 +603,29 @@ class Bus(ContainerBase, StoreClientMixin): # not a ContainerOperand
             idx = index._loc_to_iloc(label)
 
             if max_persist_active: # update LRU position
-                self._last_accessed[label] = self._last_accessed.pop(label, None)
+                last_accessed[label] = last_accessed.pop(label, None)
 
             if frame is FrameDeferred:
                 frame = next(store_reader)
 
-            if not self._loaded[idx]:
+            if not loaded[idx]:
                 # as we are iterating from `targets`, we might be holding on to references of Frames that we already removed in `array`; in this case we do not need to `read`, but we still need to update the new array
                 array[idx] = frame
-                self._loaded[idx] = True # update loaded status
+                loaded[idx] = True # update loaded status
                 if max_persist_active:
                     loaded_count += 1
 
             if max_persist_active and loaded_count > self._max_persist:
-                label_remove = next(iter(self._last_accessed))
-                del self._last_accessed[label_remove]
+                label_remove = next(iter(last_accessed))
+                del last_accessed[label_remove]
                 idx_remove = index._loc_to_iloc(label_remove)
-                self._loaded[idx_remove] = False
+                loaded[idx_remove] = False
                 array[idx_remove] = FrameDeferred
                 loaded_count -= 1
 
+        self._loaded = loaded
+        if max_persist_active:
+            self._last_accessed = last_accessed
         array.flags.writeable = False
         self._series = Series(array,
                 index=self._series._index,
